@@ -423,7 +423,10 @@ float64_t igris_atof64(const char *nptr, char **endptr)
         }
     }
 
-    if (*nptr == 'E' || *nptr == 'e')
+    if ((*nptr == 'E' || *nptr == 'e') &&
+        ((nptr[1] >= '0' && nptr[1] <= '9') ||
+         ((nptr[1] == '+' || nptr[1] == '-') && nptr[2] >= '0' &&
+          nptr[2] <= '9')))
     {
         int e_sign = 1;
         int e_val = 0;
